@@ -5,7 +5,10 @@ set -u
 patch="$1"; shift
 if [ -n "$(git -C /repo status --porcelain)" ]; then echo "refusing: /repo working tree is not clean (commit first)"; exit 2; fi
 git -C /repo apply "$patch" || { echo "patch does not apply"; exit 2; }
-trap 'git -C /repo checkout -- . ; git -C /repo clean -fdq' EXIT
+# evidence files describe the unchanged tree: keep them as they were (a run on a patched
+# tree would otherwise leave a record with undischarged obligations behind)
+save=$(mktemp -d /var/tmp/evidence-save.XXXXXX); cp -a /verif/evidence/. "$save"/
+trap 'git -C /repo checkout -- . ; git -C /repo clean -fdq; cp -a "$save"/. /verif/evidence/; rm -rf "$save"' EXIT
 (cd /repo && GOFLAGS=-mod=mod GOPROXY=off GOSUMDB=off GOTOOLCHAIN=local go build ./... ) || { echo "does not compile"; exit 2; }
 for id in "$@"; do
   out=$(/verif/bin/check $id quick 2>&1); code=$?
